@@ -48,7 +48,18 @@ func (s *state) derive() *state {
 	return n
 }
 
-func (s *state) set(key, term string) { s.vals[key] = term }
+// set records the new value of a component. Long terms (nested stores) are given a name so that later terms
+// refer to them by name instead of embedding their text (keeps queries linear in the size of the function).
+func (s *state) set(key, term string) {
+	if len(term) > 160 {
+		if meta, ok := s.vc.keyMetas[key]; ok {
+			n := s.vc.freshConst("s!"+key, meta.Sort)
+			s.vc.assert(fmt.Sprintf("(= %s %s)", n, term))
+			term = n
+		}
+	}
+	s.vals[key] = term
+}
 
 func isHeapKey(key string) bool { return !strings.HasPrefix(key, "G:") }
 
